@@ -43,7 +43,7 @@ func contractTags(fc *FuncContract) []string {
 
 func newExec(p *Prog, name string) *Exec {
 	e := &Exec{P: p, S: newScript(), name: name, notes: map[string]bool{}, unsup: map[string]bool{}, arrSort: map[string]string{},
-		callSeen: map[string]int{}, closures: map[string]closureInfo{}, usedLemmas: map[string]bool{}, measures: map[int]string{}, prov: map[string]string{}, specCache: map[string]Val{}, siteVars: map[string]Val{}, forallVars: map[string]Val{}, unboundSites: map[string]bool{}, opaqueSig: map[string]string{}, specCache2: map[string][]specEntry{}, ldCache: map[string]string{}}
+		callSeen: map[string]int{}, closures: map[string]closureInfo{}, usedLemmas: map[string]bool{}, measures: map[int]string{}, prov: map[string]string{}, specCache: map[string]Val{}, siteVars: map[string]Val{}, forallVars: map[string]Val{}, fvDeref: map[*ssa.FreeVar]Val{}, unboundSites: map[string]bool{}, opaqueSig: map[string]string{}, specCache2: map[string][]specEntry{}, ldCache: map[string]string{}}
 	e.S.DeclareFun("typeof", []string{"Int"}, "Int")
 	e.S.Assert(sEq(sx("typeof", "0"), "0"))
 	e.S.Declare("A0", "Int")
@@ -131,6 +131,19 @@ func verifyFunc(p *Prog, fn *ssa.Function, fc *FuncContract, cover bool) (e *Exe
 	}
 	for _, c := range fc.Requires {
 		e.S.Assert(e.evalBool(env, c.Expr))
+	}
+	// locks the caller is required to hold
+	for _, hsrc := range fc.Holds {
+		if ex, err := parseExprSafe(strings.TrimSpace(hsrc)); err == nil {
+			if sel, ok := ex.(*ast.SelectorExpr); ok {
+				base := e.evalExpr(env, sel.X)
+				if _, T := structOf(base.T); T != nil {
+					key := fieldArrName(T, sel.Sel.Name) + "@" + base.t()
+					st.held[key] = true
+					st.held["r:"+key] = true
+				}
+			}
+		}
 	}
 	for _, u := range fc.Unfolds {
 		e.instLemma(env, u, st)
